@@ -20,26 +20,177 @@ def own_nodes(fn: ast.AST) -> Iterator[ast.AST]:
         yield from q.walk_local(st)
 
 
+def _literal(v):
+    """immutable literal: constants, +/- numbers, tuples / sets / frozenset(...) of such"""
+    import ast as _ast
+    if isinstance(v, _ast.Constant):
+        return True
+    if isinstance(v, _ast.UnaryOp) and isinstance(v.op, (_ast.USub, _ast.UAdd)) and isinstance(v.operand, _ast.Constant):
+        return True
+    if isinstance(v, (_ast.Tuple, _ast.Set)):
+        return all(_literal(x) for x in v.elts)
+    if isinstance(v, _ast.Call) and isinstance(v.func, _ast.Name) and v.func.id == "frozenset" and len(v.args) == 1 and isinstance(v.args[0], (_ast.Tuple, _ast.Set, _ast.List)) and not v.keywords:
+        return all(_literal(x) for x in v.args[0].elts)
+    return False
+
+
 def strip_annotations(repo, *relpaths):
-    """Repo copy in which annotated assignments with a value (`x: T = v`, `self.a: T = v`) are plain assignments in the
-    given modules.  Inside functions this is behaviour-identical; rules then need only one spelling of a binding."""
+    """Repo copy with three behaviour-preserving normalisations applied to the given modules, so that rules need only one
+    spelling:
+    N1  annotated assignments with a value (`x: T = v`, `self.a: T = v`) become plain assignments;
+    N2  `x = x <op> y` on a plain name becomes `x <op>= y`;
+    N3  loads of a module-level constant (a name bound exactly once at module level to an immutable literal, never declared
+        `global` in a function, not shadowed in the function) and of a class-level constant read as self.X / cls.X / Class.X
+        (bound once in the class body to an immutable literal, never assigned through an instance) are replaced by the literal;
+    N4  `A if not c else B` becomes `B if c else A`.
+    """
     import ast as _ast
     import copy as _copy
 
-    class T(_ast.NodeTransformer):
-        def visit_AnnAssign(self, node):
-            if node.value is not None and isinstance(node.target, (_ast.Name, _ast.Attribute)):
-                return _ast.copy_location(_ast.Assign(targets=[node.target], value=node.value, type_comment=None), node)
-            return node
+    def binds(fn):
+        out = set()
+        a = fn.args
+        for x in a.posonlyargs + a.args + a.kwonlyargs:
+            out.add(x.arg)
+        if a.vararg:
+            out.add(a.vararg.arg)
+        if a.kwarg:
+            out.add(a.kwarg.arg)
+        for n in _ast.walk(fn):
+            if isinstance(n, _ast.Name) and isinstance(n.ctx, (_ast.Store, _ast.Del)):
+                out.add(n.id)
+            elif isinstance(n, _ast.ExceptHandler) and n.name:
+                out.add(n.name)
+            elif isinstance(n, (_ast.Import, _ast.ImportFrom)):
+                for al in n.names:
+                    out.add((al.asname or al.name).split(".")[0])
+            elif isinstance(n, (_ast.FunctionDef, _ast.AsyncFunctionDef, _ast.ClassDef)) and n is not fn:
+                out.add(n.name)
+        return out
 
     out = repo
     for rel in relpaths:
         if not rel.startswith("tornado/"):
             rel = "tornado/" + rel
         m = out.module(rel)
-        if not any(isinstance(n, _ast.AnnAssign) and n.value is not None for n in _ast.walk(m.tree)):
-            continue
-        tree = T().visit(_copy.deepcopy(m.tree))
+        tree = _copy.deepcopy(m.tree)
+        # module-level constants
+        counts, vals = {}, {}
+        for st in tree.body:
+            tg = st.targets if isinstance(st, _ast.Assign) else ([st.target] if isinstance(st, (_ast.AnnAssign, _ast.AugAssign)) else [])
+            for t in tg:
+                for nm in [x.id for x in _ast.walk(t) if isinstance(x, _ast.Name)]:
+                    counts[nm] = counts.get(nm, 0) + 1
+            if isinstance(st, (_ast.Assign, _ast.AnnAssign)) and getattr(st, "value", None) is not None and len(tg) == 1 and isinstance(tg[0], _ast.Name) and _literal(st.value):
+                vals[tg[0].id] = st.value
+        globs = {nm for n in _ast.walk(tree) if isinstance(n, _ast.Global) for nm in n.names}
+        imported = set()
+        for st in tree.body:
+            if isinstance(st, _ast.Import):
+                imported |= {(al.asname or al.name).split(".")[0] for al in st.names}
+        for st in tree.body:
+            # NAME = module.attr.path  (an alias of a constant of an imported module, e.g. datetime.timezone.utc)
+            if isinstance(st, _ast.Assign) and len(st.targets) == 1 and isinstance(st.targets[0], _ast.Name) and isinstance(st.value, _ast.Attribute):
+                root = st.value
+                while isinstance(root, _ast.Attribute):
+                    root = root.value
+                if isinstance(root, _ast.Name) and root.id in imported and st.targets[0].id.lstrip("_").isupper():
+                    vals[st.targets[0].id] = st.value
+        mconst = {k: v for k, v in vals.items() if counts.get(k) == 1 and k not in globs}
+        # class-level constants
+        cconst = {}
+        for cls in [n for n in _ast.walk(tree) if isinstance(n, _ast.ClassDef)]:
+            cc, cv = {}, {}
+            for st in cls.body:
+                tg = st.targets if isinstance(st, _ast.Assign) else ([st.target] if isinstance(st, _ast.AnnAssign) else [])
+                for t in tg:
+                    if isinstance(t, _ast.Name):
+                        cc[t.id] = cc.get(t.id, 0) + 1
+                        if getattr(st, "value", None) is not None and _literal(st.value):
+                            cv[t.id] = st.value
+            stored = {n.attr for n in _ast.walk(cls) if isinstance(n, _ast.Attribute) and isinstance(n.ctx, (_ast.Store, _ast.Del))}
+            cconst[cls.name] = {k: v for k, v in cv.items() if cc.get(k) == 1 and k not in stored}
+
+        class Body(_ast.NodeTransformer):
+            def __init__(self, shadow, clsname):
+                self.shadow = shadow
+                self.clsname = clsname
+
+            def visit_FunctionDef(self, node):
+                return node  # nested functions are processed on their own
+
+            visit_AsyncFunctionDef = visit_FunctionDef
+
+            def visit_Lambda(self, node):
+                return node
+
+            def visit_AnnAssign(self, node):
+                node = self.generic_visit(node)
+                if node.value is not None and isinstance(node.target, (_ast.Name, _ast.Attribute)):
+                    return _ast.copy_location(_ast.Assign(targets=[node.target], value=node.value, type_comment=None), node)
+                return node
+
+            def visit_Assign(self, node):
+                node = self.generic_visit(node)
+                if len(node.targets) == 1 and isinstance(node.targets[0], _ast.Name) and isinstance(node.value, _ast.BinOp) and isinstance(node.value.left, _ast.Name) \
+                        and node.value.left.id == node.targets[0].id and isinstance(node.value.op, (_ast.Add, _ast.Sub, _ast.Mult, _ast.BitOr, _ast.BitAnd)):
+                    return _ast.copy_location(_ast.AugAssign(target=node.targets[0], op=node.value.op, value=node.value.right), node)
+                return node
+
+            def visit_IfExp(self, node):
+                node = self.generic_visit(node)
+                if isinstance(node.test, _ast.UnaryOp) and isinstance(node.test.op, _ast.Not):
+                    return _ast.copy_location(_ast.IfExp(test=node.test.operand, body=node.orelse, orelse=node.body), node)
+                return node
+
+            def visit_Name(self, node):
+                if isinstance(node.ctx, _ast.Load) and node.id in mconst and node.id not in self.shadow:
+                    return _ast.copy_location(_copy.deepcopy(mconst[node.id]), node)
+                return node
+
+            def visit_Attribute(self, node):
+                node = self.generic_visit(node)
+                if isinstance(node.ctx, _ast.Load) and isinstance(node.value, _ast.Name):
+                    owner = self.clsname if node.value.id in ("self", "cls") else node.value.id
+                    if owner in cconst and node.attr in cconst[owner] and (node.value.id in ("self", "cls") or node.value.id not in self.shadow):
+                        return _ast.copy_location(_copy.deepcopy(cconst[owner][node.attr]), node)
+                return node
+
+        def process(fn, clsname):
+            sh = binds(fn)
+            tr = Body(sh, clsname)
+            newbody = []
+            for st in fn.body:
+                if isinstance(st, (_ast.FunctionDef, _ast.AsyncFunctionDef)):
+                    process(st, clsname)
+                    newbody.append(st)
+                else:
+                    r = tr.visit(st)
+                    newbody.append(r)
+                    for sub in _ast.walk(r):
+                        if isinstance(sub, (_ast.FunctionDef, _ast.AsyncFunctionDef)) and sub is not r:
+                            process(sub, clsname)
+            fn.body = newbody
+
+        def walk_defs(body, clsname):
+            for st in body:
+                if isinstance(st, (_ast.FunctionDef, _ast.AsyncFunctionDef)):
+                    process(st, clsname)
+                elif isinstance(st, _ast.ClassDef):
+                    walk_defs(st.body, st.name)
+                else:
+                    for fld in ("body", "orelse", "finalbody"):
+                        sub = getattr(st, fld, None)
+                        if isinstance(sub, list):
+                            walk_defs([x for x in sub if isinstance(x, _ast.stmt)], clsname)
+                    for h in getattr(st, "handlers", []) or []:
+                        walk_defs(h.body, clsname)
+
+        walk_defs(tree.body, None)
         _ast.fix_missing_locations(tree)
+        try:
+            compile(tree, rel, "exec")
+        except Exception:
+            continue
         out = out.with_module(rel, tree=tree)
     return out
